@@ -162,8 +162,29 @@ def _tjob(chunk):
     return n, bad
 
 
+def replay_raw_comments(w):
+    from . import c05 as c05mod
+    p = boot.fresh_parser()
+    sp = actions.spellings(type(p.lexer))
+    ka = w['raw_kinds']
+    kb = [k for k in ka if k not in ('LINE_COMMENT', 'BLOCK_COMMENT', 'BLOCK_COMMENT_ML')]
+    spell = dict(c05mod.RAW_SPELL, DIV='/', LINE_COMMENT='//c')
+    # a line comment runs to the end of the line: the raw model lets the next item follow directly, the text needs what the raw
+    # sequence has next to be a terminator or the end (otherwise the witness is not realisable as text)
+    for i, k in enumerate(ka[:-1]):
+        if k == 'LINE_COMMENT' and ka[i + 1] != 'LINE_TERMINATOR':
+            return False, 'raw sequence %r is not realisable as text (line comment not followed by a terminator)' % (ka,)
+    ta = ' '.join(spell.get(k, sp.get(k, k)) for k in ka)
+    tb = ' '.join(spell.get(k, sp.get(k, k)) for k in kb)
+    wc = w.get('with_comments', False)
+    a, b = c05mod.lexer_types(ta, wc), c05mod.lexer_types(tb, wc)
+    return a != b, 'with_comments=%r: %r lexes to %r, the comment-free %r to %r' % (wc, ta, a, tb, b)
+
+
 def replay(d):
     w = d['input']
+    if 'raw_kinds' in w:
+        return replay_raw_comments(w)
     try:
         msg = check_text(w['text'], w['plain'])
     except Exception as e:
@@ -256,8 +277,16 @@ def main():
             samples.append({'harness': repr(args), 'stats': st})
         for msg, w in viols[:1]:
             names = dom.names
-            kinds = [(k, names[int(v)]) for k, v in sorted(w.items()) if str(v).isdigit() and re.match(r'k\d_\d+', k)]
-            run.inconclusive_('token stream depends on comment items for raw kinds %r: %s' % (kinds, msg[:160]))
+            wc = 'with_comments=True' in msg
+            tag = 'k%d_' % int(wc)
+            ks = sorted(((int(k[len(tag):]), names[int(v)]) for k, v in w.items() if k.startswith(tag) and k[len(tag):].isdigit() and str(v).isdigit()))
+            kinds = [k for i, k in ks]
+            rpd = {'property': 'C13', 'input': {'raw_kinds': kinds, 'with_comments': wc}}
+            ok, detail = rp.run_in_subprocess(rpd)
+            if ok:
+                run.violation('C13 S: the token stream changes when comments are inserted (%s)' % ' '.join('C' if 'COMMENT' in k else k for k in kinds)[:80], detail[:400], rpd)
+            else:
+                run.inconclusive_('token stream depends on comment items for raw kinds %r: %s | %s' % (kinds, msg[:160], detail[:160]))
     run.coverage.update({
         'explanation': 'S: real Lexer wrapper under SX, relational check (with vs without comment items) over all kind sequences of <= %d real tokens, capture off and on; '
                        'T: %d texts (structures x gaps x %d comment spellings) checked for transparency, verbatim/located/ordered/unique attachment, and print-reparse of comments.' % (
